@@ -30,6 +30,9 @@ R = z3.RealSort()
 RND = z3.Function("rnd", sym.I, R)            # float(int) when it does not overflow
 INT_OF_STR = z3.Function("int_of_str", sym.ArrS, sym.I, sym.I)
 IS_INT_STR = z3.Function("is_int_str", sym.ArrS, sym.I, sym.B)   # int(s) does not raise
+from theories import gtypes as _G
+TY_BOX = z3.Function("ty_box", _G.TyS, sym.ValS)
+TY_UNBOX = z3.Function("ty_unbox", sym.ValS, _G.TyS)
 STRINT_ARR = z3.Function("str_of_int_arr", sym.I, sym.ArrS)
 STRINT_LEN = z3.Function("str_of_int_len", sym.I, sym.I)
 IS_FLOAT_STR = z3.Function("is_float_str", sym.ArrS, sym.I, sym.B)   # float(s) does not raise
@@ -179,6 +182,11 @@ def install(w):
     def to_dyn(it, v):
         if isinstance(v, VDyn):
             return v
+        if type(v).__name__ == "VTy":
+            # a GraphQL type object as a dynamic value: an injective boxing
+            bt = TY_BOX(v.t)
+            it.sadd(z3.And(sym.tag(bt) == T["other"], TY_UNBOX(bt) == v.t))
+            return VDyn(bt)
         if isinstance(v, VOpaque):
             # nothing is known about the value: a stable box per opaque object, any tag
             d0 = getattr(v, "_box", None)
@@ -219,6 +227,8 @@ def install(w):
             for k, x in enumerate(v.items):
                 if isinstance(x, VDyn):
                     it.sadd(sym.v_item(t, k) == x.t)
+                elif type(x).__name__ == "VTy":
+                    it.sadd(sym.v_item(t, k) == to_dyn(it, x).t)
         elif isinstance(v, VDict):
             it.sadd(sym.tag(t) == T["dict"])
         else:
@@ -282,6 +292,8 @@ def install(w):
         if isinstance(a, VDyn) and isinstance(b, VDyn):
             return a.t == b.t
         d, o = (a, b) if isinstance(a, VDyn) else (b, a)
+        if type(o).__name__ == "VTy":
+            return d.t == to_dyn(it, o).t
         if isinstance(o, VAtom):
             try:
                 obj = sym.atom_obj(o)
